@@ -389,6 +389,184 @@ static uint8_t *fz_read_cred(const char *name, size_t *len)
 }
 
 /* ------------------------------------------------------------------ plain replayer (MSan build) */
+/* ------------------------------------------------------------------ structure-aware mutation of DER objects
+ * Targets whose input is [FZ_DER_PREFIX selector bytes] DER... define FZ_DER_PREFIX before including this file.
+ * Half of the mutations are libFuzzer's own byte mutations; the other half edit one node of the TLV tree (also looking
+ * inside OCTET STRING / BIT STRING contents that are DER themselves) and re-encode the length of every enclosing node,
+ * so that grown, shrunk, duplicated or removed elements stay inside a well-formed object and reach the code behind
+ * the outer length checks. */
+#if defined(FZ_DER_PREFIX) && !defined(FZ_REPLAY)
+size_t LLVMFuzzerMutate(uint8_t *Data, size_t Size, size_t MaxSize);
+
+typedef struct { uint32_t off, hl, cl; int parent; } fz_dn;
+#define FZ_DN_MAX 400
+
+static uint64_t fz_mrng_s;
+static uint32_t fz_mr(void)
+{
+	fz_mrng_s ^= fz_mrng_s << 13; fz_mrng_s ^= fz_mrng_s >> 7; fz_mrng_s ^= fz_mrng_s << 17;
+	return (uint32_t)(fz_mrng_s >> 16);
+}
+
+static int fz_mder_hdr(const uint8_t *d, size_t off, size_t end, size_t *hl, size_t *cl)
+{
+	size_t p = off;
+	if (end - off < 2) return 0;
+	if ((d[p++] & 0x1f) == 0x1f) return 0;
+	if (d[p] < 0x80) *cl = d[p++];
+	else {
+		int nb = d[p++] & 0x7f;
+		if (nb == 0 || nb > 3 || (size_t)nb > end - p) return 0;
+		*cl = 0;
+		while (nb--) *cl = (*cl << 8) | d[p++];
+	}
+	*hl = p - off;
+	return *cl <= end - p;
+}
+
+static int fz_der_whole(const uint8_t *d, size_t off, size_t end)
+{
+	size_t hl, cl;
+	if (off >= end || (d[off] != 0x30 && d[off] != 0x02 && d[off] != 0x04 && d[off] != 0x31)) return 0;
+	while (off < end) {
+		if (!fz_mder_hdr(d, off, end, &hl, &cl)) return 0;
+		off += hl + cl;
+	}
+	return 1;
+}
+
+static void fz_der_scan(const uint8_t *d, size_t off, size_t end, int parent, fz_dn *nodes, int *cnt, int depth)
+{
+	while (off < end && *cnt < FZ_DN_MAX) {
+		size_t hl, cl, c;
+		int me;
+		uint8_t tag = d[off];
+		if (!fz_mder_hdr(d, off, end, &hl, &cl)) return;
+		me = (*cnt)++;
+		nodes[me].off = (uint32_t)off; nodes[me].hl = (uint32_t)hl; nodes[me].cl = (uint32_t)cl; nodes[me].parent = parent;
+		c = off + hl;
+		if (depth < 14) {
+			if (tag & 0x20) fz_der_scan(d, c, c + cl, me, nodes, cnt, depth + 1);
+			else if (tag == 0x04 && cl >= 2 && fz_der_whole(d, c, c + cl)) fz_der_scan(d, c, c + cl, me, nodes, cnt, depth + 1);
+			else if (tag == 0x03 && cl >= 3 && d[c] == 0 && fz_der_whole(d, c + 1, c + cl)) fz_der_scan(d, c + 1, c + cl, me, nodes, cnt, depth + 1);
+		}
+		off = c + cl;
+	}
+}
+
+static size_t fz_der_lenenc(size_t cl, uint8_t out[4])
+{
+	if (cl < 0x80) { out[0] = (uint8_t)cl; return 1; }
+	if (cl < 0x100) { out[0] = 0x81; out[1] = (uint8_t)cl; return 2; }
+	if (cl < 0x10000) { out[0] = 0x82; out[1] = (uint8_t)(cl >> 8); out[2] = (uint8_t)cl; return 3; }
+	out[0] = 0x83; out[1] = (uint8_t)(cl >> 16); out[2] = (uint8_t)(cl >> 8); out[3] = (uint8_t)cl; return 4;
+}
+
+/* replace del bytes at `at` by ins[0..inslen) and fix the lengths of node `anc` and all of its ancestors; 0 if it does not fit */
+static size_t fz_der_splice(uint8_t *d, size_t size, size_t max, size_t at, size_t del, const uint8_t *ins, size_t inslen,
+	const fz_dn *nodes, int anc)
+{
+	long delta = (long)inslen - (long)del;
+	if (at + del > size || size + inslen - del + 64 > max) return 0;
+	memmove(d + at + inslen, d + at + del, size - at - del);
+	if (inslen) memcpy(d + at, ins, inslen);
+	size = size + inslen - del;
+	while (anc >= 0) {
+		uint8_t enc[4];
+		long ncl = (long)nodes[anc].cl + delta;
+		size_t nl, ol = nodes[anc].hl - 1, lo = nodes[anc].off + 1;
+		if (ncl < 0 || ncl > 0xffffff) return 0;
+		nl = fz_der_lenenc((size_t)ncl, enc);
+		if (size + nl - ol > max) return 0;
+		memmove(d + lo + nl, d + lo + ol, size - lo - ol);
+		memcpy(d + lo, enc, nl);
+		size = size + nl - ol;
+		delta += (long)nl - (long)ol;
+		anc = nodes[anc].parent;
+	}
+	return size;
+}
+
+size_t LLVMFuzzerCustomMutator(uint8_t *data, size_t size, size_t max, unsigned int seed)
+{
+	static const uint16_t sizes[] = { 0, 1, 2, 8, 15, 16, 17, 31, 32, 33, 63, 64, 65, 96, 127, 128, 129, 200, 203, 204, 205, 255, 256, 257,
+		300, 384, 400, 511, 512, 513, 768, 1000, 1023, 1024, 1025, 2047, 2048, 2049, 4096 };
+	static const uint8_t tags[] = { 0x01, 0x02, 0x03, 0x04, 0x05, 0x06, 0x0c, 0x13, 0x16, 0x17, 0x18, 0x30, 0x31, 0xa0, 0xa1, 0xa2, 0xa3, 0x80, 0x81, 0x82, 0x86 };
+	static fz_dn nodes[FZ_DN_MAX];
+	static uint8_t ins[8192];
+	int cnt = 0, i;
+	size_t r = 0, k, pos, c;
+	fz_mrng_s = 0x9E3779B97F4A7C15ULL * (seed + 1) | 1;
+	fz_mr();
+	if (size <= FZ_DER_PREFIX + 2 || (fz_mr() & 1))
+		return LLVMFuzzerMutate(data, size, max);
+	fz_der_scan(data, FZ_DER_PREFIX, size, -1, nodes, &cnt, 0);
+	if (!cnt) return LLVMFuzzerMutate(data, size, max);
+	i = (int)(fz_mr() % (unsigned)cnt);
+	c = nodes[i].off + nodes[i].hl;
+	switch (fz_mr() % 8) {
+	case 0:	/* grow the content */
+		k = 1 + fz_mr() % ((fz_mr() & 3) ? 16 : 600);
+		pos = (fz_mr() & 1) ? nodes[i].cl : fz_mr() % (nodes[i].cl + 1);
+		switch (fz_mr() % 3) {
+		case 0: memset(ins, 0, k); break;
+		case 1: memset(ins, 0xff, k); break;
+		default: { size_t j; for (j = 0; j < k; j++) ins[j] = (uint8_t)fz_mr(); } break;
+		}
+		r = fz_der_splice(data, size, max, c + pos, 0, ins, k, nodes, i);
+		break;
+	case 1:	/* shrink the content */
+		if (!nodes[i].cl) break;
+		k = 1 + fz_mr() % nodes[i].cl;
+		pos = (fz_mr() & 1) ? nodes[i].cl - k : fz_mr() % (nodes[i].cl - k + 1);
+		r = fz_der_splice(data, size, max, c + pos, k, NULL, 0, nodes, i);
+		break;
+	case 2:	/* content length = a boundary value (grow / cut at the end) */
+		k = sizes[fz_mr() % (sizeof(sizes) / sizeof(sizes[0]))];
+		if (k > nodes[i].cl) {
+			size_t j, g = k - nodes[i].cl;
+			uint8_t fill = (uint8_t)fz_mr();
+			if (g > sizeof(ins)) break;
+			for (j = 0; j < g; j++) ins[j] = (fz_mr() & 7) ? fill : (uint8_t)fz_mr();
+			r = fz_der_splice(data, size, max, c + nodes[i].cl, 0, ins, g, nodes, i);
+		} else if (k < nodes[i].cl)
+			r = fz_der_splice(data, size, max, c + k, nodes[i].cl - k, NULL, 0, nodes, i);
+		break;
+	case 3:	/* duplicate the element behind itself */
+		k = nodes[i].hl + nodes[i].cl;
+		if (k > sizeof(ins)) break;
+		memcpy(ins, data + nodes[i].off, k);
+		r = fz_der_splice(data, size, max, nodes[i].off + k, 0, ins, k, nodes, nodes[i].parent);
+		break;
+	case 4:	/* remove the element */
+		if (cnt < 2) break;
+		r = fz_der_splice(data, size, max, nodes[i].off, nodes[i].hl + nodes[i].cl, NULL, 0, nodes, nodes[i].parent);
+		break;
+	case 5:	/* byte mutation confined to the content */
+		if (nodes[i].cl + 64 > sizeof(ins)) break;
+		memcpy(ins, data + c, nodes[i].cl);
+		k = LLVMFuzzerMutate(ins, nodes[i].cl, nodes[i].cl + 64);
+		r = fz_der_splice(data, size, max, c, nodes[i].cl, ins, k, nodes, i);
+		break;
+	case 6:	/* another tag, same content */
+		data[nodes[i].off] = tags[fz_mr() % sizeof(tags)];
+		r = size;
+		break;
+	default: /* copy another element over this one */
+		{
+			int j = (int)(fz_mr() % (unsigned)cnt);
+			k = nodes[j].hl + nodes[j].cl;
+			if (j == i || k > sizeof(ins)) break;
+			memcpy(ins, data + nodes[j].off, k);
+			r = fz_der_splice(data, size, max, nodes[i].off, nodes[i].hl + nodes[i].cl, ins, k, nodes, nodes[i].parent);
+		}
+		break;
+	}
+	if (!r || r > max) return LLVMFuzzerMutate(data, size, max);
+	return r;
+}
+#endif /* FZ_DER_PREFIX */
+
 #ifdef FZ_REPLAY
 
 static int fz_status_fd = 1;
